@@ -508,3 +508,39 @@ pub fn packed_patterns_with(rng: &mut Rng, force_min: Option<usize>, max_n: usiz
     }
     pats
 }
+
+/// Lengths at which "long haystack" code paths could switch: just above a
+/// byte-sized length, around 1 KiB / 4 KiB / 16 KiB and around 64 KiB.
+pub fn long_length(rng: &mut Rng) -> usize {
+    match rng.below(20) {
+        0..=5 => rng.range(257, 300),
+        6..=10 => rng.range(1000, 1100),
+        11..=14 => rng.range(4090, 4200),
+        15..=17 => rng.range(16380, 16400),
+        _ => rng.range(65530, 65600),
+    }
+}
+
+/// A haystack of about `target` bytes: pieces made by `haystack` (pattern
+/// occurrences, near misses, noise) separated by stretches of a byte that is
+/// in no pattern (so that prefilters skip far) or of alphabet noise.
+pub fn long_haystack(rng: &mut Rng, pats: &[Vec<u8>], alpha: &[u8], target: usize) -> Vec<u8> {
+    let mut h = Vec::with_capacity(target + 64);
+    let foreign = (0u8..=255).rev().find(|b| !pats.iter().any(|p| p.contains(b)) && !alpha.contains(b));
+    let dense = rng.chance(1, 3);
+    while h.len() < target {
+        let piece = haystack(rng, pats, alpha, 40);
+        h.extend_from_slice(&piece);
+        let gap = if dense { rng.range(0, 8) } else { rng.range(0, (target / 6).max(8)) };
+        match (foreign, rng.below(3)) {
+            (Some(f), 0 | 1) => h.extend(std::iter::repeat(f).take(gap)),
+            _ => {
+                for _ in 0..gap.min(64) {
+                    h.push(*rng.pick(alpha));
+                }
+            }
+        }
+    }
+    h.truncate(target);
+    h
+}
